@@ -71,9 +71,9 @@ impl World for Chain {
     }
     fn default_runs(&self, prop: &str, tier: Tier) -> u64 {
         match (prop, tier) {
-            ("C07", Tier::Quick) => 60,
+            ("C07", Tier::Quick) => 120,
             ("C07", Tier::Thorough) => 3_000,
-            (_, Tier::Quick) => 250,
+            (_, Tier::Quick) => 1000,
             (_, Tier::Thorough) => 30_000,
         }
     }
@@ -168,6 +168,21 @@ async fn world(ctx: &mut Ctx) {
         for _ in 0..ncand {
             if let Some(g) = txgen::gen_tx(ctx, &spec, &tables, &mut sim.gen_state, height) {
                 cands.push(g);
+            }
+        }
+        // gas burners: some valid script candidates get a script that uses up its whole gas
+        // limit, so that the used gas of a block can actually reach the block gas limit
+        if ctx.tape.chance(1, 3) {
+            for c in cands.iter_mut() {
+                if c.tx.is_script() && matches!(c.expect, Expect::Success | Expect::Failure) && ctx.tape.chance(1, 2) {
+                    if let Some(t) = oracles::gas_burner_variant(&spec, c) {
+                        c.tx = t;
+                        c.desc = format!("gas-burner variant of [{}]", c.desc);
+                        c.expect = Expect::Failure;
+                        c.touches_contracts = false;
+                        ctx.probe("gas_burner_candidate");
+                    }
+                }
             }
         }
         // sometimes the same transaction twice in one block
